@@ -171,8 +171,14 @@ def orf_products(seq, st, p, secs=(), sect=False, m_removal=True, drop_open=Fals
     res = enz.digest(prot, p, m_removal=m_removal, strict=strict,
         closed=closed or not drop_open, min_end=me)
     if sect:
+        last_site = max([0] + enz.sites(prot, p['rule'], p.get('exception')))
         for i, ch in enumerate(prot):
             if ch == 'U':
+                if strict and drop_open and not closed and i > last_site:
+                    # open finding C09-sect-open-tail: a Sec-terminated product inside the
+                    # trailing segment of an open-ended translation is not reported by the
+                    # tool; permitted (U), not demanded (L)
+                    continue
                 res |= enz.digest(prot[:i], p, m_removal=m_removal, strict=strict, min_end=me)
     return res
 
